@@ -36,6 +36,7 @@ structure Cfg where
   cacheKeyedByN : Bool   -- the per-object island cache remembers the N it was computed for
   pathCacheKeyedByArgs : Bool -- GetFullHashPath reuses the memoised path only for the same (root, island, depth, per-level)
   unroutedIsError : Bool -- GetServiceClient hands out a client that fails with an error for an island without a route (not nil)
+  srvChecksIsland : Bool -- the server refuses a request whose IslandID is not the island of the name (it has no such check: false)
   deriving DecidableEq, Repr
 
 /-- both sides add 1 and the server computes on 16 bits -/
